@@ -273,6 +273,7 @@ entry:
 		if (HAWK_SIZEOF(_char_type_) == HAWK_SIZEOF(hawk_bch_t)) dir_flags |= HAWK_DIR_BPATH;
 
 		dp = hawk_dir_open(g->gem, 0, (const _char_type_*)_ECS_PREFIX_()_PTR(&g->path), dir_flags);
+		if (!dp && hawk_gem_geterrnum(g->gem) == HAWK_ENOMEM) goto oops; /* not the same as a directory that cannot be read */
 		if (dp)
 		{
 			tmp = _ECS_PREFIX_()_LEN(&g->path);
@@ -399,7 +400,7 @@ oops:
 
 	while (g->free)
 	{
-		r = g->stack;
+		r = g->free;
 		g->free = r->next;
 		hawk_gem_freemem (g->gem, r);
 	}
@@ -439,7 +440,7 @@ int _fn_name_ (hawk_gem_t* gem, const _char_type_* pattern, _cb_type_ cbimpl, vo
 	{
 		if (hawk_becs_init(&g.mbuf, g.gem, 512) <= -1) 
 		{
-			_ecs_prefix_()_fini (&g.path);
+			_ecs_prefix_()_fini (&g.tbuf);
 			_ecs_prefix_()_fini (&g.path);
 			return -1;
 		}
@@ -452,7 +453,7 @@ int _fn_name_ (hawk_gem_t* gem, const _char_type_* pattern, _cb_type_ cbimpl, vo
 
 	x = _g_prefix_()_search(&g, &seg);
 
-	if (HAWK_SIZEOF(_char_type_) != HAWK_SIZEOF(hawk_uch_t)) hawk_becs_fini (&g.mbuf);
+	if (HAWK_SIZEOF(_char_type_) != HAWK_SIZEOF(hawk_bch_t)) hawk_becs_fini (&g.mbuf);
 	_ecs_prefix_()_fini (&g.tbuf);
 	_ecs_prefix_()_fini (&g.path);
 
